@@ -9,7 +9,7 @@ for id in $IDS; do
   m=seeded/$id/meta.json; [ -f $m ] || continue
   checks=$(python3 -c "import json;m=json.load(open('$m'));print(' '.join(m['checks_run']['caught_by']))")
   tier=$(python3 -c "import json;m=json.load(open('$m'));print(m['checks_run'].get('tier','quick'))")
-  out=$(VERIF_CL_SUITES=CL1024,CL2048 scripts/seedlab.sh run seeded/$id/patch.diff $tier $checks 2>&1)
+  out=$(VERIF_CL_SUITES=CL1024,CL2048 scripts/seedlab.sh run $PWD/seeded/$id/patch.diff $tier $checks 2>&1)
   if echo "$out" | grep -q "PATCH-DOES-NOT-APPLY"; then echo "$id: SKIPPED (patch does not apply to this HEAD)"; continue; fi
   caught=$(echo "$out" | grep -c "exit=1")
   echo "$id: $( [ $caught -gt 0 ] && echo CAUGHT || echo MISSED ) by [$checks] ($tier) -- $(echo "$out" | grep -E 'exit=' | sed 's/ violation line.*//' | tr '\n' ' ')"
